@@ -136,7 +136,10 @@ func candidates(s *RunSpec) []*RunSpec {
 				out = append(out, checksCands(s, func(c *RunSpec) *ChecksSpec { return blockChecks(&c.Plans[pi].Blocks[bi])[gi] })...)
 			}
 			if b.EntranceMs != 0 || b.ExitMs != 0 {
-				add(func(c *RunSpec) bool { c.Plans[pi].Blocks[bi].EntranceMs, c.Plans[pi].Blocks[bi].ExitMs = 0, 0; return true })
+				add(func(c *RunSpec) bool {
+					c.Plans[pi].Blocks[bi].EntranceMs, c.Plans[pi].Blocks[bi].ExitMs = 0, 0
+					return true
+				})
 			}
 			if b.Concurrency > 1 {
 				add(func(c *RunSpec) bool { c.Plans[pi].Blocks[bi].Concurrency--; return true })
